@@ -319,9 +319,14 @@ class Session:
                 out[name] = val.as_long()
             else:
                 try:
-                    out[name] = [val.numerator_as_long(), val.denominator_as_long()]
+                    fr = val.as_fraction()
+                    out[name] = [int(fr.numerator), int(fr.denominator)]
                 except Exception:
-                    out[name] = str(val)
+                    try:  # algebraic number: rational approximation to 30 digits
+                        fr = val.approx(30).as_fraction()
+                        out[name] = [int(fr.numerator), int(fr.denominator)]
+                    except Exception:
+                        out[name] = str(val)
         rng = []
         for name, v, label in self.outcome_vars:
             val = m.eval(v, model_completion=True)
@@ -553,7 +558,9 @@ class ConcreteSession:
     def real(self, name):
         v = self.inputs.get(name, [0, 1])
         if isinstance(v, list):
-            return float(Fraction(v[0], v[1]))
+            return float(Fraction(int(v[0]), int(v[1])))
+        if isinstance(v, str):
+            return float(Fraction(v.replace("?", "")))
         return float(v)
 
     def complex_(self, name):
